@@ -5,6 +5,7 @@ import (
 	"fmt"
 	"reflect"
 	"sort"
+	"strings"
 	"sync"
 	"testing"
 	"time"
@@ -17,7 +18,7 @@ import (
 )
 
 // query kinds
-var kinds = []string{"projection", "analytic-select", "analytic-where", "fnkey-counting", "join", "tumbling", "global", "unnest", "regexp-digits", "regexp-alpha", "array-fns", "literal-upper", "literal-lower", "column-upper", "column-lower"}
+var kinds = []string{"projection", "analytic-select", "analytic-where", "fnkey-counting", "join", "tumbling", "global", "unnest", "regexp-digits", "regexp-alpha", "array-fns", "pctl-explicit", "pctl-default", "pctl-low", "literal-upper", "literal-lower", "column-upper", "column-lower"}
 
 type Side struct {
 	Kind string    `json:"kind"`
@@ -50,6 +51,12 @@ func sqlOf(kind string) string {
 	case "unnest":
 		// unnest over an array of objects next to other columns (expanded on the asynchronous path only)
 		return "SELECT id, s, unnest(objs) AS o FROM stream"
+	case "pctl-explicit": // the parameter of one instance's aggregate must not become another instance's default
+		return "SELECT k, percentile(a, 0.5) AS p, collect(id) AS ids FROM stream GROUP BY k, CountingWindow(3)"
+	case "pctl-default":
+		return "SELECT k, percentile(a) AS p, collect(id) AS ids FROM stream GROUP BY k, CountingWindow(3)"
+	case "pctl-low":
+		return "SELECT k, percentile(a, 0.1) AS p, collect(id) AS ids FROM stream GROUP BY k, CountingWindow(3)"
 	case "array-fns": // functions that build a new array from arrays nested in the caller's row
 		return "SELECT id, array_remove(arr, 'b') AS ar, array_distinct(arr) AS ad, array_union(arr, arr2) AS au, array_except(d.arr, arr2) AS ae, array_intersect(arr, arr2) AS ai FROM stream"
 	case "literal-upper": // literal-upper / literal-lower differ only in the case of a letter inside a string literal
@@ -121,6 +128,9 @@ func genCase(t *rapid.T) Case {
 		}
 		if tw := twinOf[c.A.Kind]; tw != "" && rapid.IntRange(0, 3).Draw(t, "twin") > 0 {
 			b.Kind = tw
+		}
+		if strings.HasPrefix(c.A.Kind, "pctl-") && rapid.IntRange(0, 3).Draw(t, "pctltwin") > 0 {
+			b.Kind = rapid.SampledFrom([]string{"pctl-explicit", "pctl-default", "pctl-low"}).Draw(t, "pctlkind")
 		}
 		b.Sync = syncable(b.Kind) && rapid.Bool().Draw(t, "syncB")
 		c.B = &b
@@ -248,6 +258,10 @@ func (s *session) finish(n int) [][]map[string]any {
 	case "fnkey-counting", "global":
 		s.emit(sent(-1, nil), false)
 		s.emit(sent(-2, nil), false)
+	case "pctl-explicit", "pctl-default", "pctl-low":
+		s.emit(sent(-1, nil), false)
+		s.emit(sent(-2, nil), false)
+		s.emit(sent(-3, nil), false)
 	case "tumbling":
 		// one row far later fires every earlier window; it stays buffered itself. The last data window's
 		// delivery is the barrier, so add a sentinel data row in its own (later) window first.
